@@ -18,3 +18,10 @@ for line in open(traces[0]):
         if e.get("e") in ("ClientResp", "ClientInvoke"):
             print(r.get("step"), json.dumps(e))
 print(wd)
+if len(sys.argv) > 2:
+    for line in open(traces[0]):
+        r = json.loads(line)
+        nd = r["st"]["nodes"]
+        print(r["step"], json.dumps(r["a"])[:80], r.get("applied"),
+              " ".join("%s:%s%s/L%d/c%d/a%d" % (k, v["role"] if v["up"] else "x", v["term"], len(v["log"]), v["commit"], v["applied"]) for k, v in sorted(nd.items())),
+              "net=%d" % len(r["st"]["net"]))
